@@ -75,6 +75,7 @@ def cases(ctx):
     out = []
     for h in (KANI_THOROUGH if ctx.tier == "thorough" else KANI_QUICK):
         out.append({"id": "kani|%s" % h, "kind": "kani", "harness": h, "weight": 1000})
+    out.append({"id": "fold|from_str folds every (coefficient, exponent) pair correctly", "kind": "fold", "weight": 30})
     sh = shapes(ctx)
     for i in range(0, len(sh), 25):
         out.append({"id": "shapes|%d" % i, "kind": "shapes", "shapes": sh[i:i + 25], "weight": 20})
@@ -156,6 +157,8 @@ def run_case(ctx, case):
         return res.done()
     prog = ctx.program("dev")
     f = get_fn(prog, "from_str", ["&str"], "Result<Decimal, ParseDecimalError>")
+    if case["kind"] == "fold":
+        return run_fold(ctx, prog, res, f)
     for si, shape in enumerate(case["shapes"]):
         st = State()
         lit, digs = build_literal(st, shape, "d")
@@ -213,6 +216,49 @@ def run_case(ctx, case):
     return res.done()
 
 
+def run_fold(ctx, prog, res, f):
+    """Decimal::from_str on top of an arbitrary str_to_dec result (c, e): together with the literal-level Kani harnesses
+    (str_to_dec returns exactly (digits, exponent - fraction length)) this gives the end-to-end statement for all strings in Kani's bounds"""
+    from mir2smt.exec import _Alts
+    st = State()
+    c = sym_int("c", "i128", st, lo=-MAXC)
+    e = sym_int("e", "isize", st, lo=-(1 << 41), hi=1 << 41)
+
+    def s2d(ex, st_, fr, callee, args):
+        BI._use("CONTRACT str_to_dec = arbitrary Ok((c, e)) / Err(kind) (literal level: Kani harnesses)")
+        alts = [(True, EnumV("Result", 0, (Agg("tuple", (IV(c.t, "i128"), IV(e.t, "isize"))),)))]
+        for k in range(4):
+            alts.append((True, EnumV("Result", 1, (EnumV("ParseDecimalError", k),)), (lambda s2, k=k: s2.tags.__setitem__("s2d_err", k))))
+        return _Alts(alts)
+    ex = new_executor(ctx, prog, contracts={"str_to_dec": s2d})
+    outs = ex.explore(start_state(f, [Opaque("str", "src")], None, st))
+    res.absorb(ex, outs)
+    for i, o in enumerate(outs):
+        name = "fold|path%d:%s" % (i, o.kind)
+        errk = o.state.tags.get("s2d_err")
+        if o.kind != "return":
+            goal = False
+        elif errk is not None:
+            goal = T.B(o.value.variant == 1 and o.value.fields[0].variant == errk)
+        else:
+            # value c * 10^e: Ok((c, -e)) for -18 <= e < 0; Ok((c*10^e, 0)) for 0 <= e <= 38 if it fits; Err otherwise
+            E = e.t
+            if o.value.variant == 0:
+                rc, rp = dec_fields(o.value.fields[0])
+                pw = T.fresh_int("pw")
+                tbl = z3.Or(*[z3.And(E == k, pw == 10 ** k) for k in range(0, 39)])
+                goal = z3.If(E < 0, z3.And(E >= -18, T.I(rc) == c.t, T.I(rp) == -E),
+                             z3.And(E <= 38, T.I(rp) == 0, z3.Exists([pw], z3.And(tbl, T.I(rc) == c.t * pw)), T.I(rc) <= I128_MAX, T.I(rc) >= -I128_MAX))
+            else:
+                pw = T.fresh_int("pw")
+                tbl = z3.Or(*[z3.And(E == k, pw == 10 ** k) for k in range(0, 39)])
+                fits = z3.Exists([pw], z3.And(tbl, c.t * pw <= I128_MAX, c.t * pw >= -I128_MAX))
+                goal = z3.Or(E < -18, E > 38, z3.And(E >= 0, z3.Not(fits)))
+        r = res.vc(ctx, name, o.state.constraints(), goal, {"c": c.t, "e": e.t}, {"kind": "fold"})
+        res.sample({"vc": name, "status": r.status, "time_s": round(r.time, 3)})
+    return res.done()
+
+
 def text_of(info, inputs):
     if info["kind"] == "lit":
         return info["text"]
@@ -223,7 +269,15 @@ def text_of(info, inputs):
 
 def replay(ctx, native, v):
     info = v["info"]
-    if info["kind"] == "kani":
+    if info["kind"] == "fold":
+        c, e = v["inputs"]["c"], v["inputs"]["e"]
+        if abs(e) > 60:
+            text = "%de%d" % (c, e)
+        elif e >= 0:
+            text = "%de%d" % (c, e)
+        else:
+            text = "%de%d" % (c, e)
+    elif info["kind"] == "kani":
         data = bytes.fromhex(info["bytes"])
         try:
             text = data.decode("utf-8")
